@@ -13,6 +13,23 @@ def factory(w, a):
     return [monitors.C04(w, a)]
 
 
+def pre_hook(world, gen_, mons):
+    """now and then a coin that sorts after every traded denom lands on a native/native pair (a reserve read that takes
+    'the other coin' of the pair's balance list for asset 1 would pick it up)"""
+    orig_next = gen_.next
+
+    def nxt():
+        if gen_.rng.random() < 0.03:
+            nn = [p for p in world.pairs if p.kind() == "nn" and p.supply(world.ledger) > 0]
+            if nn:
+                p = gen_.rng.choice(nn)
+                amt = gen_.rng.choice([1, 10 ** 6, max(1, p.reserves(world.ledger)[1] // 2), p.reserves(world.ledger)[1] * 3 + 1])
+                gen_.count += 1
+                return world.op_donate("attacker", p.addr, ("n", world.tail_denom), amt), []
+        return orig_next()
+    gen_.next = nxt
+
+
 def _ok(st):
     return st.op["kind"] == "withdraw" and st.ok
 
@@ -54,7 +71,7 @@ CORR = {"overpay_one": corrupt_overpay, "third_party_debited": corrupt_third_par
 
 
 def run_shard(acc, prop, tier, seed, shard, nshards, **kw):
-    _w.shard(acc, PROP, tier, seed, shard, nshards, factory, WEIGHTS, (12, (120, 220)), (220, (120, 300)), CORR)
+    _w.shard(acc, PROP, tier, seed, shard, nshards, factory, WEIGHTS, (12, (120, 220)), (220, (120, 300)), CORR, pre_hook=pre_hook)
 
 
 def floors(acc, tier):
